@@ -1,0 +1,48 @@
+//go:build verif
+
+package libp2pwebtransport
+
+import (
+	"crypto/tls"
+	"crypto/x509"
+	"time"
+
+	"github.com/benbjohnson/clock"
+	ic "github.com/libp2p/go-libp2p/core/crypto"
+	ma "github.com/multiformats/go-multiaddr"
+	"github.com/multiformats/go-multihash"
+)
+
+// This file re-exports the certificate manager and verifier for external
+// verification harnesses. It is compiled only with the "verif" build tag and
+// adds no behaviour.
+
+const (
+	VerifClockSkewAllowance = clockSkewAllowance
+	VerifCertValidity       = certValidity
+)
+
+// VerifCertManager is a handle on the unexported certManager.
+type VerifCertManager struct{ m *certManager }
+
+func VerifNewCertManager(hostKey ic.PrivKey, clk clock.Clock) (*VerifCertManager, error) {
+	m, err := newCertManager(hostKey, clk)
+	if err != nil {
+		return nil, err
+	}
+	return &VerifCertManager{m: m}, nil
+}
+
+func (v *VerifCertManager) GetConfig() *tls.Config         { return v.m.GetConfig() }
+func (v *VerifCertManager) AddrComponent() ma.Multiaddr    { return v.m.AddrComponent() }
+func (v *VerifCertManager) SerializedCertHashes() [][]byte { return v.m.SerializedCertHashes() }
+func (v *VerifCertManager) Close() error                   { return v.m.Close() }
+
+func VerifVerifyRawCerts(rawCerts [][]byte, certHashes []multihash.DecodedMultihash) error {
+	return verifyRawCerts(rawCerts, certHashes)
+}
+
+func VerifGenerateCert(key ic.PrivKey, start, end time.Time) (*x509.Certificate, error) {
+	cert, _, err := generateCert(key, start, end)
+	return cert, err
+}
